@@ -429,6 +429,15 @@ def pipeline(ctx, cases, deadline_ms=700, refs=None):
         compiled = javac_rounds(ctx, jr, allc, frames)
         t3 = time.time()
         run_jvm(ctx, jr, allc, compiled, deadline_ms)
+        # a call the driver gave up on is decided by a SECOND run of that method alone with a 4x budget (CPU time of the call, generous wall
+        # clock): "does not terminate" is only reported when it is stuck again; if it returns now, the first give-up was the machine, not the code
+        stuck = [c for c in allc if isinstance(c.jvm, str) and c.jvm.startswith("?")]
+        if stuck:
+            ctx.count("jvm_calls_given_up_first_time", len(stuck))
+            for c in stuck:
+                c.jvm = None
+            run_jvm(ctx, jr, stuck, compiled, deadline_ms * 4)
+            ctx.count("jvm_calls_stuck_again_with_4x_budget", len([c for c in stuck if isinstance(c.jvm, str) and c.jvm.startswith("?")]))
         t4 = time.time()
     finally:
         jr.close()
